@@ -246,21 +246,13 @@ theorem closed_integrate (o : Obj) (t : Tbl o) (st : LState) (hst : Inv o st) (v
   · simp only [h, if_true]; exact closed_integCore o t st hst v2 v1 (-1)
   · simp only [h, if_false]; exact closed_integCore o t st hst v1 v2 1
 
-/-- the value `Local_Minimum/Maximum` forms from the end values and the knots `first … last`
-    (`i1+1 … i2`, plus the end knot when a limit lies in the extrapolation zone, fix ede24b1) -/
-def extVal (o : Obj) (isMax : Bool) (v1 v2 fl fr : Rat) (i1 i2 : Nat) : Rat :=
-  let pick := if isMax then rmax else rmin
-  let first := if v1 < o.x 0 ∧ v2 ≥ o.x 0 then i1 else i1 + 1
-  let last := if v2 > o.x (o.N - 1) ∧ v1 ≤ o.x (o.N - 1) then i2 + 1 else i2
-  if first > last then pick fl fr
-  else
-    let ks := o.knotValues first last
-    let mn := o.pref * listMin ks 0
-    let mx := o.pref * listMax ks 0
-    pick (pick (pick fl mn) mx) fr
+/-- the value `Local_Minimum/Maximum` forms from the end values, the knots `first … last` and (for a limit in
+    the extrapolation zone, fix 51ca844) the stationary values of the edge cubic: `Obj.extValue` of the model -/
+abbrev extVal [SqrtFn] (o : Obj) (isMax : Bool) (v1 v2 fl fr : Rat) (i1 i2 : Nat) : Rat :=
+  o.extValue isMax v1 v2 fl fr i1 i2
 
 /-- pure `Local_Minimum` / `Local_Maximum` -/
-def pLocalExt (o : Obj) (isMax : Bool) (v1 v2 : Rat) : Except Err Rat :=
+def pLocalExt [SqrtFn] (o : Obj) (isMax : Bool) (v1 v2 : Rat) : Except Err Rat :=
   if v2 < v1 then .error .diag
   else match locateCanon o.N o.x v1 with
     | .error e => .error e
@@ -268,44 +260,22 @@ def pLocalExt (o : Obj) (isMax : Bool) (v1 v2 : Rat) : Except Err Rat :=
       | .error e => .error e
       | .ok i2 => .ok (extVal o isMax v1 v2 (o.cubicAt i1 v1) (o.cubicAt i2 v2) i1 i2)
 
-/-- the last stage of `Local_*` -/
-def extFin (o : Obj) (isMax : Bool) (v1 v2 fl fr : Rat) (i1 i2 : Nat) (od : Obj) : Except Err (Rat × Obj) :=
-  let pick := if isMax then rmax else rmin
-  let first := if v1 < o.x 0 ∧ v2 ≥ o.x 0 then i1 else i1 + 1
-  let last := if v2 > o.x (o.N - 1) ∧ v1 ≤ o.x (o.N - 1) then i2 + 1 else i2
-  if first > last then pure (pick fl fr, od)
-  else
-    let ks := o.knotValues first last
-    let mn := o.pref * listMin ks 0
-    let mx := o.pref * listMax ks 0
-    pure (pick (pick (pick fl mn) mx) fr, od)
-
-theorem extFin_eq (o : Obj) (isMax : Bool) (v1 v2 fl fr : Rat) (i1 i2 : Nat) (od : Obj) :
-    extFin o isMax v1 v2 fl fr i1 i2 od = .ok (extVal o isMax v1 v2 fl fr i1 i2, od) := by
-  unfold extFin extVal
-  simp only
-  generalize (if v1 < o.x 0 ∧ v2 ≥ o.x 0 then i1 else i1 + 1) = first
-  generalize (if v2 > o.x (o.N - 1) ∧ v1 ≤ o.x (o.N - 1) then i2 + 1 else i2) = last
-  by_cases h : first > last
-  · simp only [h, if_true]; rfl
-  · simp only [h, if_false]; rfl
-
 /-- the four look-ups of `Local_*` after the argument check -/
-def extCore (o : Obj) (isMax : Bool) (v1 v2 : Rat) : Except Err (Rat × Obj) := do
+def extCore [SqrtFn] (o : Obj) (isMax : Bool) (v1 v2 : Rat) : Except Err (Rat × Obj) := do
   let (fl, oa) ← o.interpolate v1
   let (fr, ob) ← oa.interpolate v2
   let (i1, oc) ← ob.locate v1
   let (i2, od) ← oc.locate v2
-  extFin o isMax v1 v2 fl fr i1 i2 od
+  pure (o.extValue isMax v1 v2 fl fr i1 i2, od)
 
-theorem localExt_core (o : Obj) (isMax : Bool) (v1 v2 : Rat) :
+theorem localExt_core [SqrtFn] (o : Obj) (isMax : Bool) (v1 v2 : Rat) :
     o.localExt isMax v1 v2 = if v2 < v1 then .error .diag else extCore o isMax v1 v2 := by
-  unfold Obj.localExt extCore extFin
+  unfold Obj.localExt extCore
   by_cases h : v2 < v1
   · simp only [h, if_true]; rfl
   · simp only [h, if_false]
 
-theorem closed_localExt (o : Obj) (t : Tbl o) (st : LState) (hst : Inv o st) (isMax : Bool) (v1 v2 : Rat) :
+theorem closed_localExt [SqrtFn] (o : Obj) (t : Tbl o) (st : LState) (hst : Inv o st) (isMax : Bool) (v1 v2 : Rat) :
     Closed o (Obj.localExt { o with st := st } isMax v1 v2) (pLocalExt o isMax v1 v2) := by
   rw [localExt_core]
   unfold pLocalExt
@@ -327,7 +297,7 @@ theorem closed_localExt (o : Obj) (t : Tbl o) (st : LState) (hst : Inv o st) (is
           let (fr, ob) ← Obj.interpolate { o with st := nst st i1 } v2
           let (i1', oc) ← ob.locate v1
           let (i2, od) ← oc.locate v2
-          extFin o isMax v1 v2 (o.cubicAt i1 v1) fr i1' i2 od : Except Err (Rat × Obj)) = _
+          pure (o.extValue isMax v1 v2 (o.cubicAt i1 v1) fr i1' i2, od) : Except Err (Rat × Obj)) = _
         rw [ha]; rfl
       | ok i2 =>
         rw [h2] at ha
@@ -341,17 +311,17 @@ theorem closed_localExt (o : Obj) (t : Tbl o) (st : LState) (hst : Inv o st) (is
           let (fr, ob) ← Obj.interpolate { o with st := nst st i1 } v2
           let (i1', oc) ← ob.locate v1
           let (i2, od) ← oc.locate v2
-          extFin o isMax v1 v2 (o.cubicAt i1 v1) fr i1' i2 od : Except Err (Rat × Obj)) = _
+          pure (o.extValue isMax v1 v2 (o.cubicAt i1 v1) fr i1' i2, od) : Except Err (Rat × Obj)) = _
         rw [ha]
         show (do
           let (i1', oc) ← Obj.locate { o with st := nst (nst st i1) i2 } v1
           let (i2', od) ← oc.locate v2
-          extFin o isMax v1 v2 (o.cubicAt i1 v1) (o.cubicAt i2 v2) i1' i2' od : Except Err (Rat × Obj)) = _
+          pure (o.extValue isMax v1 v2 (o.cubicAt i1 v1) (o.cubicAt i2 v2) i1' i2', od) : Except Err (Rat × Obj)) = _
         rw [hc]
         show (do
           let (i2', od) ← Obj.locate { o with st := nst (nst (nst st i1) i2) i1 } v2
-          extFin o isMax v1 v2 (o.cubicAt i1 v1) (o.cubicAt i2 v2) i1 i2' od : Except Err (Rat × Obj)) = _
+          pure (o.extValue isMax v1 v2 (o.cubicAt i1 v1) (o.cubicAt i2 v2) i1 i2', od) : Except Err (Rat × Obj)) = _
         rw [hd]
-        exact extFin_eq o isMax v1 v2 _ _ i1 i2 _
+        rfl
 
 end Lp.C09
